@@ -33,6 +33,20 @@ def main(argv: List[str]) -> int:
             tid += 1
             items[tid] = {'tid': tid, 'doc': doc, 'allow': False, 'want': 'model', 'fseed': fseed, 'pinned': pinned,
                           'seed': seed, 'gen': 'RandDoc'}
+    # per-element feature products (exhaustive in the thorough tier), each in the canonical and two random forms
+    complete = True
+    nprod = 0
+    for fam in docs.FAMILY_SIZES:
+        ps, full = docs.gen_products(fam, doccheck.budget(260, 10 ** 9), rep)
+        complete = complete and full
+        nprod += len(ps)
+        for pid, doc in ps:
+            for fseed, pinned in [(None, {}), (hash(pid) % 10 ** 6, {}), (hash(pid) % 10 ** 6 + 1, {})]:
+                tid += 1
+                items[tid] = {'tid': tid, 'doc': doc, 'allow': False, 'want': 'model', 'fseed': fseed, 'pinned': pinned,
+                              'seed': pid, 'gen': 'GenProduct'}
+    rep.notes['product_documents'] = nprod
+    rep.notes['products_complete'] = complete
     res = docs.run_items(list(items.values()), rep, 'C01')
     doccheck.judge('C01', rep, res, items,
                    lambda it: docs.doc_features(it['doc']) > 0 or it['fseed'] is not None or bool(it['pinned']))
